@@ -32,6 +32,10 @@ type c05cfg struct {
 }
 
 func runC05(c *rt.C) {
+	if c.Index%24 == 23 {
+		c05ManyWriters(c)
+		return
+	}
 	r := c.Rng
 	cfg := c05cfg{
 		Mem:       memModes()[c.Index%3],
@@ -281,7 +285,7 @@ func init() {
 		ID: "C05", Level: "exploration",
 		Technique: "runtime monitoring: restored snapshot (scan, Count) compared with the model copy of the stored snapshot; reference-set monitor continues on the restored instance",
 		Rule: "each case builds a seeded multi-version history (0-3000 keys; 20000 in some thorough cases), stores the latest or an older open snapshot with store concurrency ∈ {1,2,4,16}, with and without delta interleaving, DiskBlockSize ∈ {64,4096,512Ki}, usually while a churn goroutine mutates, creates and closes snapshots and calls GC() and the item callback stalls the scan; then loads into a fresh instance (load concurrency ∈ {1,2,4,16}), compares scan and Count, runs 3 further epochs of Put/Delete/NewSnapshot on the restored instance against the reference set and re-checks the restored snapshot. " +
-			"evaluations = store/load pairs; distinct = (delta on/off, older/latest, churn active, max physical versions per key, concurrencies, size class, memory mode, delta items actually restored) tuples",
+			"every 24th case uses 2*NumCPU+8 writers with delta interleaving and releases 48 retired garbage lists to the collection workers at once during the backup. evaluations = store/load pairs; distinct = (delta on/off, older/latest, churn active, max physical versions per key, concurrencies, size class, memory mode, delta items actually restored) tuples",
 		Assumptions: []string{"StoreToDisk consumes one reference of the snapshot passed in; the harness Open()s it first", "all writers are driven by one churn goroutine during the backup so NewSnapshot never overlaps a writer call", "the restored instance gets writers created after LoadFromDisk"},
 		Cases: func(t string) int {
 			if t == "thorough" {
@@ -295,4 +299,96 @@ func init() {
 		CaseTimeout: 4 * time.Minute,
 		Run:         runC05,
 	})
+}
+
+// c05ManyWriters: delta interleaving with more writers than CPUs (every writer's collection worker
+// has its own delta file) and dozens of garbage lists released at once during the backup: an old
+// snapshot blocks the in-order collector while 48 later snapshots are retired behind it; it is closed
+// when the backup has started, so all lists reach the workers together and many of them log delta
+// items concurrently.
+func c05ManyWriters(c *rt.C) {
+	r := c.Rng
+	mem := []string{"go", "poison"}[c.Index%2]
+	db := OpenDB(DBOpt{Mem: mem, Delta: true})
+	nW := 2*runtime.NumCPU() + 8
+	ws := make([]*nitro.Writer, nW)
+	for i := range ws {
+		ws[i] = db.N.NewWriter()
+	}
+	const nKeys = 30000
+	model := db.NewModel()
+	for i := 0; i < nKeys; i++ {
+		k := []byte(fmt.Sprintf("key-%07d", i))
+		ws[i%nW].Put(k)
+		model.Put(string(k), k)
+	}
+	blocker, _ := db.N.NewSnapshot()
+	ws[0].Put([]byte("zz-late")) // something born after the blocker
+	model.Put("zz-late", []byte("zz-late"))
+	target, _ := db.N.NewSnapshot()
+	want := model.Snapshot()
+	// 48 epochs of deletes of items visible in the target; every one retired behind the blocker
+	perm := r.Perm(nKeys)
+	pos := 0
+	for e := 0; e < 48; e++ {
+		for j := 0; j < 300; j++ {
+			k := []byte(fmt.Sprintf("key-%07d", perm[pos]))
+			pos++
+			ws[r.Intn(nW)].Delete(k)
+		}
+		s, _ := db.N.NewSnapshot()
+		s.Close()
+	}
+	started := make(chan struct{})
+	var once sync.Once
+	n := 0
+	dir := filepath.Join(c.Tmp, "bk")
+	errc := make(chan error, 1)
+	go func() {
+		errc <- db.N.StoreToDisk(dir, target, 4, func(*nitro.ItemEntry) { // gives the target's only reference away
+			n++
+			if n == 50 {
+				once.Do(func() { close(started) })
+			}
+			if n%64 == 0 {
+				runtime.Gosched()
+			}
+		})
+	}()
+	select {
+	case <-started:
+	case err := <-errc:
+		errc <- err
+	}
+	blocker.Close() // releases the collector: blocker, target and 48 retired lists go to the workers at once
+	err := <-errc
+	c.Evals(1)
+	witness := map[string]interface{}{"mem": mem, "writers": nW, "keys": nKeys, "retired_snapshots_released_at_once": 48}
+	if err != nil {
+		c.Inconclusive("StoreToDisk failed without injected faults: " + err.Error())
+		return
+	}
+	fresh := db.Fresh()
+	res, stuck, inc := loadWithProbe(fresh, dir, 8)
+	switch {
+	case inc:
+		c.Inconclusive("LoadFromDisk did not return")
+		return
+	case stuck || res.pan != nil || res.err != nil:
+		c.Violate("load-error", fmt.Sprintf("StoreToDisk (delta interleaving, %d writers, 48 garbage lists collected during the backup) succeeded but LoadFromDisk failed: stuck=%v panic=%v err=%v", nW, stuck, res.pan, res.err), witness)
+		return
+	}
+	got, _ := Scan(res.snap, 0)
+	if d := DiffScan(got, want); d != "" {
+		c.Violate("restore-content", fmt.Sprintf("delta backup with %d writers: restored snapshot differs: %s", nW, d), witness)
+	}
+	if res.snap.Count() != int64(len(want)) {
+		c.Violate("restore-count", fmt.Sprintf("restored Count()=%d, stored %d", res.snap.Count(), len(want)), witness)
+	}
+	c.Count("delta_items_restored", int64(fresh.N.DeltaRestored))
+	c.Count("delta_items_duplicate", int64(fresh.N.DeltaRestoreFailed))
+	c.Sig("many-writers/w=%d/mem=%s/delta-used=%v", nW, mem, fresh.N.DeltaRestored > 0)
+	witness["delta_items_restored"] = fresh.N.DeltaRestored
+	c.Sample(witness)
+	res.snap.Close()
 }
